@@ -44,6 +44,19 @@ Theorem owner_in_headers : forall ef bias m a p,
 Proof. exact owner_in_headers_lemma. Qed.
 Print Assumptions owner_in_headers.
 
+(* whether a header is a candidate depends on that header and the mapping only, not on its position
+   in the table or on the other entries (ELF orders PT_LOAD by vaddr; file offsets need not ascend) *)
+Theorem headers_for_mapping_membership : forall phdrs mapOff mapSz p,
+  In p (program_headers_for_mapping phdrs mapOff mapSz) <-> In p phdrs /\ phm_keep mapOff mapSz p = true.
+Proof. exact phm_membership_lemma. Qed.
+Print Assumptions headers_for_mapping_membership.
+
+Theorem headers_for_mapping_permutation : forall phdrs phdrs' mapOff mapSz,
+  Permutation.Permutation phdrs phdrs' ->
+  Permutation.Permutation (program_headers_for_mapping phdrs mapOff mapSz) (program_headers_for_mapping phdrs' mapOff mapSz).
+Proof. exact phm_permutation_lemma. Qed.
+Print Assumptions headers_for_mapping_permutation.
+
 (* -- HeaderForFileOffset returns the owner or an error, never another header -- *)
 Theorem unique_or_error : forall hs fo h p,
   In p hs -> off_in_header fo p = true -> header_for_file_offset hs fo = Ok h -> h = p.
